@@ -408,7 +408,11 @@ class StorageFrontend:
         if self.overwrite == "always":
             return True
         if self.overwrite == "if_broken":
-            metadata = self.get_metadata(key)
+            try:
+                metadata = self.get_metadata(key)
+            except DataNotAvailable:
+                # Data without metadata is certainly broken
+                return True
             return not ("writing_ended" in metadata and "exception" not in metadata)
         return False
 
